@@ -49,7 +49,7 @@ FAULTS = ("cut", "half_open", "server_restart", "refuse", "hang", "mbox_dup",
 def configs(tier):
     out = []
     for i in range(8):
-        out.append({"spake": "real" if i == 0 else "stub",
+        out.append({"spake": "real" if i == 0 else "stub", "reentrant": i % 3 == 1,
                     "faults": i % 4 != 1, "reorder_heavy": i % 2 == 0,
                     "dilate": i in (2, 5),
                     "max_msgs": 6 if tier == "quick" else 12})
